@@ -255,10 +255,15 @@ def make_units(name, iset):
                     unknown = land(present, i == 13, lowest != 13)
                 else:
                     unknown = land(present, n == i, wback, lowest != i)
-                val = r_cur(init, i)
+                # a stored UNKNOWN value (base register in the list and not lowest with write-back; SP in a PUSH list): only
+                # the value is unspecified - it is taken from the implementation's own write -, the word is still written
+                wr = [a_ for a_ in mem.accesses if a_[1] == 'W' and sym.is_intlike(a_[4])]
+                val = ite(unknown, (wr[-1][4] & M32) if wr else 0, r_cur(init, i))
                 wa = AM.mem_write(mem.init, AM.KIND_A, priv, a0, 4, val)
                 if kind == 'push':
-                    wa = AM.mem_ite(ua, AM.mem_write(mem.init, AM.KIND_U, priv, a0, 4, val), wa)
+                    # (the UNKNOWN word of PUSH is "MemA[address,4] = bits(32) UNKNOWN" whatever UnalignedAllowed says)
+                    wa = AM.mem_ite(land(ua, lnot(unknown)), AM.mem_write(mem.init, AM.KIND_U, priv, a0, 4, val), wa)
+                unknown = False
                 exp_mem = AM.mem_ite(present, wa, mem.init)
             fin = mach.read()
             dc = unknown
@@ -339,7 +344,7 @@ def make_units(name, iset):
             length = 4 * popcount(regs & 0x7FFF, 16) + 4
             new_pc = AM.mem_read(mem.init, AM.KIND_A, cur_priv(init), a, 4)
             n_in = ((regs >> n) & 1) != 0
-            cpu.UNKNOWN(land(wback, n_in))
+            cpu.unknown_bits_R(n, ite(land(wback, n_in), M32, 0))       # R[n] = bits(32) UNKNOWN: only the base register
             cpu.when(land(wback, lnot(n_in)), lambda k: k.setR(n, ite(attrs['increment'], (base + length) & M32, (base - length) & M32)))
             cpu.exception_return(cpu.SPSR(), new_pc)
         elif kind in ('load', 'pop'):
@@ -351,14 +356,14 @@ def make_units(name, iset):
                     k.cases([(ua, lambda q: (q.UNPREDICTABLE(bits(a, 1, 0) != 0), q.load_write_pc(vu))), (True, lambda q: q.load_write_pc(va))])
                 cpu.when(has_pc, do_pc)
                 sp_in = bit(regs, 13) != 0
-                cpu.UNKNOWN(sp_in)
+                cpu.unknown_bits_R(13, ite(sp_in, M32, 0))          # SP = bits(32) UNKNOWN: only SP
                 cpu.when(lnot(sp_in), lambda k: k.setR(13, (base + 4 * count) & M32))
             else:
                 cpu.when(has_pc, lambda k: k.load_write_pc(va))
                 n_in = ((regs >> n) & 1) != 0
                 delta = 4 * count
                 newbase = (base + delta) & M32 if mode in ('IA', 'IB') else (base - delta) & M32
-                cpu.UNKNOWN(land(wback, n_in))
+                cpu.unknown_bits_R(n, ite(land(wback, n_in), M32, 0))       # R[n] = bits(32) UNKNOWN: only the base register
                 cpu.when(land(wback, lnot(n_in)), lambda k: k.setR(n, newbase))
         else:
             pcv = cpu.pc()
@@ -372,7 +377,15 @@ def make_units(name, iset):
         fin = mach.read()
         dc = lor(cpu.unpred, cpu.unknown)
         # a PC not written by the instruction stays (the step function advances it)
-        named = [(k, lor(dc, values_eq(v, cpu.st[k]))) for k, v in fin.items() if not k.startswith('chg[')]
+        named = []
+        for k, v in fin.items():
+            if k.startswith('chg['):
+                continue
+            um = cpu.unkmask.get(k, 0)
+            if sym.is_intlike(um) and not (isinstance(um, int) and um == 0) and sym.is_intlike(v):
+                named.append((k, lor(dc, values_eq(v & (um ^ M32), cpu.st[k] & (um ^ M32)))))
+            else:
+                named.append((k, lor(dc, values_eq(v, cpu.st[k]))))
         named.append(('mem', lor(dc, sym.SymBool(mem.term == cpu.st['mem']))))
         named.append(('pc-written', lor(dc, sym.eq(sym.truth(fin['chg[15]']), sym.truth(lor(init['chg[15]'], cpu.branched))))))
         eng.oblige_all('post', '%s: after the loop: PC slot, base/SP write-back' % name, named)
@@ -405,14 +418,22 @@ def block_replay(name, iset, inputs, ob):
     def rd(address, size, *r):
         return int.from_bytes(bytes(memd.get((address + k) & M32, ((address + k) * 29 + 7) & 0xFF) for k in range(size)), 'little')
 
+    wkinds = []
+
     def wr(address, size, *r):
         writes.append((address, size, r[-1]))
         for k in range(size):
             memd[(address + k) & M32] = (r[-1] >> (8 * k)) & 0xFF
+
+    def wr_kind(k_):
+        def f(address, size, *r):
+            wkinds.append(k_)
+            return wr(address, size, *r)
+        return f
     for nm in ('mem_a_get', 'mem_u_get'):
         setattr(cpu, nm, rd)
-    for nm in ('mem_a_set', 'mem_u_set'):
-        setattr(cpu, nm, wr)
+    cpu.mem_a_set = wr_kind('MemA')
+    cpu.mem_u_set = wr_kind('MemU')
     cpu.condition_passed = lambda: True
     regs = ins.get('registers', 0)
     if 'i' in ins and 'loop.address' in ins:
@@ -456,7 +477,9 @@ def block_replay(name, iset, inputs, ob):
     base = ST.rget(R, n, cm)
     address = OB.start_address(base, count, mode)
     exp_writes = []
-    unknown = False
+    exp_kinds = []
+    unknown_at = set()
+    ukind = 'MemU' if (kind == 'push' and bool(ins.get('unaligned_allowed'))) else 'MemA'
     lowest = next((b for b in range(16) if (regs >> b) & 1), 16)
     for i in range(15):
         if (regs >> i) & 1:
@@ -464,7 +487,10 @@ def block_replay(name, iset, inputs, ob):
                 R = ST.rset(R, i, cm, rd(address, 4))
             else:
                 if (kind == 'push' and i == 13 and lowest != 13) or (kind == 'store' and i == n and wback and lowest != i):
-                    unknown = True
+                    unknown_at.add(len(exp_writes))         # the stored value (only) is UNKNOWN; PUSH writes it with MemA
+                    exp_kinds.append('MemA')
+                else:
+                    exp_kinds.append(ukind)
                 exp_writes.append((address, 4, ST.rget(R, i, cm)))
             address = (address + 4) & M32
     lines = ['%s registers=%s n=%s wback=%s base=%s mode=%s' % (name, bin(regs), n, wback, hex(base), hex(cm))]
@@ -475,9 +501,11 @@ def block_replay(name, iset, inputs, ob):
     if kind in ('store', 'push'):
         if (regs >> 15) & 1:
             exp_writes.append((address, 4, (init['R.PC'] + (8 if iset == 'arm' else 4)) & M32))
-        lines.append('real writes %s' % [(hex(a), hex(v)) for a, s, v in writes])
-        lines.append('spec writes %s' % [(hex(a), hex(v)) for a, s, v in exp_writes])
-        bad = (not unknown) and [(a, v) for a, s, v in writes] != [(a, v) for a, s, v in exp_writes]
+            exp_kinds.append(ukind)
+        lines.append('real writes %s' % [(hex(a), hex(v), k_) for (a, s, v), k_ in zip(writes, wkinds)])
+        lines.append('spec writes %s' % [(hex(a), 'UNKNOWN' if j in unknown_at else hex(v), k_) for j, ((a, s, v), k_) in enumerate(zip(exp_writes, exp_kinds))])
+        bad = len(writes) != len(exp_writes) or wkinds != exp_kinds or any(
+            a != ea or (j not in unknown_at and v != ev) for j, ((a, s, v), (ea, es, ev)) in enumerate(zip(writes, exp_writes)))
     else:
         diff = {k: (hex(final['R.' + k]), hex(v)) for k, v in R.items() if k != 'PC' and final['R.' + k] != v
                 and not (wback and k == [nm for c, nm in ST.bank_of(n, cm) if c][0])}
